@@ -1,6 +1,7 @@
 //! vmon: runtime-monitoring core shared by the per-property workloads.
 pub mod big;
 pub mod divgen;
+pub mod gcdgen;
 pub mod gen;
 pub mod mon;
 pub mod rng;
